@@ -188,6 +188,9 @@ func drawStop(rt *rapid.T, o gen.HistOpt, kinds []string) *StopCase {
 	case "cancel_out", "cancel_in", "cancel_gate", "cancel_log", "cancel_busy", "handler_err", "handler_err_cancel", "mapper_err", "mapper_cols", "unsupported", "invalid", "undecodable":
 		c.QuietAfter = rapid.Bool().Draw(rt, "quiet_after")
 	}
+	if rapid.IntRange(0, 3).Draw(rt, "chop") == 0 {
+		c.Chop = rapid.Uint32Range(1, 1<<32-1).Draw(rt, "chop_seed")
+	}
 	if rapid.IntRange(0, 4).Draw(rt, "late_deadline") == 0 {
 		c.LateDeadlineMs = rapid.IntRange(15, 40).Draw(rt, "late_deadline_ms")
 	}
@@ -218,6 +221,9 @@ func stopClasses(c *StopCase, o *StopObs) []string {
 	}
 	if c.QuietAfter {
 		cls = append(cls, "master-silent-after-the-cause")
+	}
+	if c.Chop != 0 {
+		cls = append(cls, "bytes-arrive-in-pieces")
 	}
 	if len(c.H.Units) >= 400 && c.Handler == HandlerGated && c.GateCall == 1 {
 		cls = append(cls, "deep-backlog-behind-gated-first-call")
